@@ -14,7 +14,7 @@
    The model describes lexer.rs WITH fixes/D6-comment-resets-trim.patch (Model/Lexer.v,
    `comment_flag_fixed = true`); for the pinned code the central statement is false, see
    C08_ws_filter_spec_refuted_pinned. *)
-From TeraV Require Import Model.Value Model.Utf8 Model.Lexer Spec.Doc Model.LexerDoc
+From TeraV Require Import Model.Value Model.Utf8Lex Model.Lexer Spec.Doc Model.LexerDoc
   Proofs.Utf8Proofs Proofs.WsFilterProofs Proofs.LexerProofs Proofs.LexerSpans Proofs.LexerLocal.
 Require Import Coq.Strings.String Coq.Strings.Ascii.
 
